@@ -17,7 +17,7 @@ pub fn run(t: &[&str]) -> String {
 
 pub fn gen(rng: &mut Rng, tier: Tier, out: &mut Vec<String>) {
     let n = if tier == Tier::Quick { 2500 } else { 100_000 };
-    let kinds = ["s", "v2", "v3", "c3", "p3", "t", "s", "u"];
+    let kinds = ["s", "v2", "v3", "c3", "p3", "t", "c4", "u"];
     let mut i = 0;
     while i < n {
         let (p, tag) = gen_tri_xy(rng);
